@@ -34,7 +34,14 @@ def run_case(case: dict) -> dict:
             opts.append("--no-replace")
         if case.get("multi_line") and st["hasMulti"]:
             opts.append("--multi-line")
-        r = annmodel.annotate(root, [f], opts, locale_c=bool(case.get("locale_c")))
+        targets = [f]
+        if case.get("with_binary") is not None:
+            # the same invocation also names two binary files (their headers go to .license siblings): whatever the order in
+            # which the tool visits the three, this file is treated as if it had been named alone
+            for nm in ("aaa-logo.png", "zzz-photo.jpg"):
+                (root / nm).write_bytes(b"\x89PNG\r\n\x1a\n\x00\x00\x00\rIHDR" + bytes(range(256)))
+                targets.append(root / nm)
+        r = annmodel.annotate(root, targets, opts, locale_c=bool(case.get("locale_c")), hashseed=case.get("with_binary"))
         after = f.read_bytes()
         if r["exc"]:
             ev["crash"] = r["exc"][-500:]
@@ -88,11 +95,13 @@ def run(ctx: core.Ctx) -> int:
         for st, si in picks:
             n = len(cases)
             cases.append({"tid": n + 1, "style": st, "sheb_idx": si, "body": g["body"], "replace": g["replace"],
+                          "with_binary": (n // 37) % 4 if n % 37 == 5 else None,
                           "eol": eols[n % 3], "final_nl": n % 4 != 0, "bom": n % 7 == 0,
                           "tws_line": (n % 5) if n % 2 else 0, "multi_line": n % 6 == 0, "quote": n % 3 == 1, "exotic": n % 4 == 3, "locale_c": n % 40 == 7, "longfirst": [0, 0, 0, 0, 4095, 0, 0, 0, 5000, 0, 0][n % 11],
                           "label": json.dumps({"style": st["name"], "class": g["st"], "replace": g["replace"],
                                                "kinds": [ln["k"] for ln in g["body"]], "eol": repr(eols[n % 3]),
-                                               "bom": n % 7 == 0, "finalNL": n % 4 != 0, "quote": n % 3 == 1, "exotic": n % 4 == 3, "locale": "C" if n % 40 == 7 else "", "longfirst": [0, 0, 0, 0, 4095, 0, 0, 0, 5000, 0, 0][n % 11]})})
+                                               "bom": n % 7 == 0, "finalNL": n % 4 != 0, "quote": n % 3 == 1, "exotic": n % 4 == 3, "locale": "C" if n % 40 == 7 else "", "longfirst": [0, 0, 0, 0, 4095, 0, 0, 0, 5000, 0, 0][n % 11],
+                                               **({"with_binary_hashseed": (n // 37) % 4} if n % 37 == 5 else {})})})
     # files whose NAME looks like one of the tool's own in another spelling (FILE.license is replaced as a whole - NOTES.LICENSE
     # is somebody's file), annotated without --style
     py = next(s_ for s_ in styles if s_["name"] == "python")
@@ -134,7 +143,7 @@ def replay(ctx: core.Ctx, path: str) -> int:
     lab = json.loads(ev["label"])
     st = next(s for s in annmodel.style_table() if s["name"] == lab["style"])
     case = {"tid": 1, "style": st, "sheb_idx": 0, "body": ev["pre"], "replace": ev["replace"], "eol": eval(lab["eol"]),
-            "final_nl": lab["finalNL"], "bom": lab["bom"], "tws_line": 0, "multi_line": False, "quote": bool(lab.get("quote")), "exotic": bool(lab.get("exotic")), "locale_c": lab.get("locale") == "C", "longfirst": lab.get("longfirst", 0), "label": ev["label"], **({"fname": lab["fname"]} if lab.get("fname") else {})}
+            "final_nl": lab["finalNL"], "bom": lab["bom"], "tws_line": 0, "multi_line": False, "quote": bool(lab.get("quote")), "exotic": bool(lab.get("exotic")), "locale_c": lab.get("locale") == "C", "longfirst": lab.get("longfirst", 0), "label": ev["label"], **({"fname": lab["fname"]} if lab.get("fname") else {}), "with_binary": lab.get("with_binary_hashseed")}
     e = run_case(case)
     print(json.dumps(e["text"], indent=1))
     e.pop("text")
